@@ -31,7 +31,9 @@ def gen_ast_policy(rng, sim, maxdepth=2, p_bad=0.04):
         r = rng.random()
         if rng.random() < 0.15: return 'B'
         if dep <= 0 or r < 0.35: return atom()
-        return ('A,' if r < 0.65 else 'O,') + gen(dep - 1) + ',' + gen(dep - 1)
+        # 'A' / 'O': the enum constructors; 'a' / 'o': the `&` / `|` operators (which simplify around Broadcast)
+        k = ('A,' if r < 0.65 else 'O,'); k = k.lower() if rng.random() < 0.4 else k
+        return k + gen(dep - 1) + ',' + gen(dep - 1)
     return '@' + gen(rng.randint(1, maxdepth + 1))
 
 
@@ -47,7 +49,9 @@ def gen_policy(rng, sim, maxdepth=2, p_star=0.08, p_bad=0.04):
         d, a = rng.choice(live); return d + '::' + a
     def gen(dep):
         r = rng.random()
-        if rng.random() < 0.04: return '*'          # the broadcast policy as an operand (neutral for &&, absorbing for ||)
+        # the broadcast policy as an operand (neutral for &&, absorbing for ||); bare it is only accepted as the last
+        # element, in parentheses it can stand anywhere (e.g. as the LEFT operand of ||)
+        if rng.random() < 0.05: return rng.choice(['*', '(*)', '( * )'])
         if dep <= 0 or r < 0.45: return atom()
         if r < 0.72: return gen(dep - 1) + ' && ' + gen(dep - 1)
         if r < 0.95: return gen(dep - 1) + ' || ' + gen(dep - 1)
@@ -91,8 +95,9 @@ def gen_history(rng, w=None, nsteps=(8, 45), final_pairs=True, names_extra=('e',
             d = rng.choice(list(dims)); a = rng.choice(attr_pool + list(names_extra)); aft = '-'
             if dims[d] and rng.random() < 0.5: aft = x(rng.choice(dims[d]))
             if rng.random() < 0.05: aft = x('zz')
+            elif rng.random() < 0.04: aft = x('')       # Some(""): an unknown attribute unless one is literally named ""
             out.append(f"AT {x(d)} {x(a)} {rng.choice('001')} {aft}")
-            if a not in dims[d] and not (sim.kinds[d] == 'AH' and aft == x('zz')): dims[d].append(a)
+            if a not in dims[d] and not (sim.kinds[d] == 'AH' and (aft == x('zz') or (aft == x('') and '' not in dims[d]))): dims[d].append(a)
         elif op == 'del_attr' and dims:
             d = rng.choice(list(dims))
             if dims[d]:
